@@ -80,7 +80,11 @@ def make_gymnax_twin(table: dict):
 
     @struct.dataclass
     class Params(genv.EnvParams):
+        # the episode time limit and the reward offset live in the PARAMETERS (defaults differ from every explored case), so an
+        # adapter that resets or steps with `default_params` instead of the parameters it was given is observable
         max_steps_in_episode: int = 1000
+        limit: int = 7
+        reward_offset: float = 100.0
 
     class TabGymnax(genv.Environment):
         @property
@@ -90,9 +94,9 @@ def make_gymnax_twin(table: dict):
         def step_env(self, key, state, action, params):
             a = jnp.asarray(action, dtype=int)
             s2 = T[state.s, a]
-            r = R[state.s, a, s2]
+            r = R[state.s, a, s2] + params.reward_offset
             t2 = state.time + 1
-            done = term[s2] | ((limit > 0) & (t2 >= limit))
+            done = term[s2] | ((params.limit > 0) & (t2 >= params.limit))
             ns = State(s=s2, time=t2)
             return s2, ns, r, done, {}
 
@@ -120,4 +124,4 @@ def make_gymnax_twin(table: dict):
         def observation_space(self, params):
             return gspaces.Discrete(S)
 
-    return TabGymnax(), Params()
+    return TabGymnax(), Params(limit=limit, reward_offset=0.0)
